@@ -100,7 +100,8 @@ func checkC17(rc *Run) error {
 			pool = append(pool, string(rune(a))+string(rune(b)))
 		}
 	}
-	classes := []string{"abcXYZ019_", "@%+=:,./-", "'", " \t\n", "$`\\\"", "*?[]{}()<>|&;!#~", "é世😀  ", "\x01\x1b\x7f"}
+	classes := []string{"abcXYZ019_", "@%+=:,./-", "'", " \t\n", "$`\\\"", "*?[]{}()<>|&;!#~", "é世😀  ", "\x01\x1b\x7f",
+		"٣१৩２Ⅷßж\u0301"} // characters Unicode calls digits / letters / marks that are not ASCII: never part of a shell name
 	nrand := rc.Pick(4000, 40000)
 	for i := 0; i < nrand; i++ {
 		n := 3 + rng.Intn(10)
@@ -112,7 +113,8 @@ func checkC17(rc *Run) error {
 		}
 		pool = append(pool, sb.String())
 	}
-	pool = append(pool, "$(touch CANARY)", "`touch CANARY`", "; touch CANARY", "x;touch CANARY", "a&touch CANARY", "a|touch CANARY", "a\ntouch CANARY", "-n", "--", "a<CANARY", "a>CANARY", "~", "#x", "a b", "=", "''", "'", "\\", "\\'")
+	pool = append(pool, "$(touch CANARY)", "`touch CANARY`", "; touch CANARY", "x;touch CANARY", "a&touch CANARY", "a|touch CANARY", "a\ntouch CANARY", "-n", "--", "a<CANARY", "a>CANARY", "~", "#x", "a b", "=", "''", "'", "\\", "\\'",
+		"port٣", "١", "a١b", "१st", "２", "x৩_", "ж", "aß")
 
 	type pair = M
 	var pairs []pair
